@@ -477,6 +477,7 @@ func genC10(r *Rand, tier string, i int) *h.Scenario {
 	}
 	nc := r.Range(2, 4)
 	bit := uint(0)
+	uniq := int64(7)
 	maxOps := 7
 	if tier == "thorough" {
 		maxOps = 10
@@ -485,7 +486,11 @@ func genC10(r *Rand, tier string, i int) *h.Scenario {
 		var ops []h.Op
 		for k, n := 0, r.Range(2, maxOps); k < n; k++ {
 			b := r.Intn(nb)
-			switch r.Weighted(6, 2, 5, 1, 1, 1) {
+			switch r.Weighted(6, 2, 5, 1, 1, 1, 3) {
+			case 6:
+				// absolute sets with unique values: a torn read-modify-write shows up as a value nobody set
+				uniq += 1000003
+				ops = append(ops, h.Op{K: []int{h.OpSetCurrent, h.OpEwmaSetCurrent}[r.Intn(2)], Bar: b, N: uniq % (1 << 38), D: 1000})
 			case 0:
 				// distinct powers of two: every Current() identifies the set of applied increments
 				op := h.Op{K: []int{h.OpIncr, h.OpIncrBy, h.OpEwmaIncr}[r.Intn(3)], Bar: b, N: int64(1) << bit, D: 1000}
